@@ -162,6 +162,8 @@ class SpecArray(object):
 
     def _standard_name(self, varname):
         try:
+            if varname not in attrs.ATTRS:
+                raise AttributeError(varname)
             return attrs.ATTRS[varname]["standard_name"]
         except AttributeError:
             warnings.warn(
@@ -172,6 +174,8 @@ class SpecArray(object):
 
     def _units(self, varname):
         try:
+            if varname not in attrs.ATTRS:
+                raise AttributeError(varname)
             return attrs.ATTRS[varname]["units"]
         except AttributeError:
             warnings.warn(
